@@ -49,17 +49,8 @@ Definition contains (net : ipnet) (addr : ipaddr) : cres :=
 
 (* ------------------------------------------------ PeerCodec::negotiate *)
 
-Definition has_mp (caps : list cap) (f : N) : bool :=
-  existsb (fun c => match c with CMultiProtocol g => g =? f | _ => false end) caps.
-
-(* `fc.addpath = *mode` for every AddPath entry of a family that has a
-   MultiProtocol capability, in capability order: the last entry wins *)
-Definition addpath_mode (caps : list cap) (f : N) : N :=
-  fold_left (fun acc c =>
-               match c with
-               | CAddPath es => fold_left (fun acc e => if fst e =? f then snd e else acc) es acc
-               | _ => acc
-               end) caps 0.
+(* has_mp and addpath_mode (last ADD-PATH entry wins) are in Model/Caps.v: the
+   FSM's send-max filter uses the same negotiation result *)
 
 (* ExtendedNexthop (family with AFI 1, next-hop AFI 2), any entry *)
 Definition ext_nh (caps : list cap) (f : N) : bool :=
@@ -74,15 +65,7 @@ Definition has_extmsg (caps : list cap) : bool :=
 Definition has_as4 (caps : list cap) : bool :=
   existsb (fun c => match c with CFourOctet _ => true | _ => false end) caps.
 
-Definition bit (m b : N) : bool := negb (N.land m b =? 0).
-
-(* FamilyState {addpath_rx, addpath_tx} of a negotiated family, None otherwise *)
-Definition neg_family (l r : list cap) (f : N) : option (bool * bool) :=
-  if has_mp l f && has_mp r f then
-    let lm := addpath_mode l f in
-    let rm := addpath_mode r f in
-    Some (bit lm 1 && bit rm 2, bit lm 2 && bit rm 1)
-  else None.
+(* bit and neg_family (FamilyState of a negotiated family) are in Model/Caps.v *)
 
 Definition neg_extended_length (l r : list cap) : bool := has_extmsg l && has_extmsg r.
 Definition neg_two_byte_as (l r : list cap) : bool := negb (has_as4 l && has_as4 r).
@@ -127,10 +110,20 @@ Definition first_llgr (caps : list cap) : option (list (N * N * N)) :=
   | [] => None
   end.
 
+(* the `seen` filter of negotiate_llgr: the first entry of every family *)
+Fixpoint first_entries (seen : list N) (v : list (N * N * N)) : list (N * N * N) :=
+  match v with
+  | [] => []
+  | e :: t =>
+      if existsb (N.eqb (fst (fst e))) seen then first_entries seen t
+      else e :: first_entries (fst (fst e) :: seen) t
+  end.
+
 (* Some [(family, stale seconds)] *)
 Definition negotiate_llgr (l r : list cap) : option (list (N * N)) :=
   match first_llgr l, first_llgr r with
-  | Some lv, Some pv =>
+  | Some lv0, Some pv =>
+      let lv := first_entries [] lv0 in
       let fams :=
         flat_map (fun e =>
                     let lf := fst (fst e) in
